@@ -1,5 +1,133 @@
-From Coq Require Import ZArith List Bool String.
-From V Require Import Model.Serial Model.ConfigKey.
-Theorem placeholder_c18 : True.
-Proof. exact I. Qed.
-Print Assumptions placeholder_c18.
+(* C18 -- Core value objects survive every serialisation unchanged; every reported Config key retrieves its value.
+   Statements only; proofs are `exact <lemma>` from Proofs/SerialProofs.v and Proofs/ConfigKeyProofs.v.
+   Models: Model/Serial.v (to_simple/from_simple/to_json wire form, __reduce__ forms), Model/ConfigKey.v (Config keys). *)
+From Coq Require Import ZArith NArith List Bool String.
+From V Require Import Model.Serial Model.ConfigKey Proofs.SerialProofs Proofs.ConfigKeyProofs.
+Import ListNotations.
+
+(* ===== Timespan: JSON, YAML and pickle forms, including the canonical empty and the unbounded ends ===== *)
+Theorem ts_json_roundtrip : forall mx t, (0 < mx)%Z -> ts_wf mx t -> dec_ts mx (enc_ts t) = Some t.
+Proof. exact ts_json_roundtrip_p. Qed.
+Print Assumptions ts_json_roundtrip.
+
+Theorem ts_yaml_roundtrip : forall mx t, (0 < mx)%Z -> ts_wf mx t -> dec_ts_yaml mx (enc_ts_yaml mx t) = t.
+Proof. exact ts_yaml_roundtrip_p. Qed.
+Print Assumptions ts_yaml_roundtrip.
+
+Theorem ts_pickle_roundtrip : forall mx t, (0 < mx)%Z -> ts_wf mx t -> rebuild_ts mx (reduce_ts t) = t.
+Proof. exact ts_pickle_roundtrip_p. Qed.
+Print Assumptions ts_pickle_roundtrip.
+
+Theorem ts_mk_wf : forall mx b e, (0 <= b)%Z -> (e <= mx)%Z -> ts_wf mx (ts_mk mx b e).
+Proof. exact ts_mk_wf_p. Qed.
+Print Assumptions ts_mk_wf.
+
+Example ts_wf_empty : ts_wf 100%Z (100%Z, 0%Z).          Proof. right; reflexivity. Qed.
+Example ts_wf_unbounded : ts_wf 100%Z (0%Z, 100%Z).      Proof. left; simpl; unfold TMIN; repeat split; discriminate || reflexivity. Qed.
+
+(* ===== DimensionGroup ===== *)
+Theorem dec_enc_grp : forall u g, conform u (g_names g) = Some g -> dec_grp u (enc_grp g) = Some g.
+Proof. exact dec_enc_grp_p. Qed.
+Print Assumptions dec_enc_grp.
+
+Theorem grp_pickle_roundtrip : forall u g, conform u (g_names g) = Some g -> rebuild_grp u (reduce_grp g) = Some g.
+Proof. exact grp_pickle_p. Qed.
+Print Assumptions grp_pickle_roundtrip.
+
+(* ===== DatasetType: full form (only the REQUIRED dimensions travel; conform restores the group), minimal form, pickle ===== *)
+Theorem dec_enc_dt_full : forall u t, wf_dt u t -> dec_dt u (enc_dt false t) = Some t.
+Proof. exact dec_enc_dt_full_p. Qed.
+Print Assumptions dec_enc_dt_full.
+
+Theorem dec_enc_dt_minimal : forall u t, aget (t_name t) (u_types u) = Some t -> dec_dt u (enc_dt true t) = Some t.
+Proof. exact dec_enc_dt_minimal_p. Qed.
+Print Assumptions dec_enc_dt_minimal.
+
+Theorem dt_pickle_roundtrip : forall u t, wf_dt u t -> rebuild_dt u (reduce_dt t) = Some t.
+Proof. exact dt_pickle_p. Qed.
+Print Assumptions dt_pickle_roundtrip.
+
+Definition ex_g : grp := {| g_names := ["band"; "instrument"; "physical_filter"]; g_req := ["instrument"; "physical_filter"];
+                            g_impl := ["band"]; g_elems := ["band"; "instrument"; "physical_filter"] |}%string.
+Definition ex_u : uctx := {| u_max := 100%Z; u_conform := [(["instrument"; "physical_filter"], ex_g); (g_names ex_g, ex_g)]%string;
+                             u_schema := [("x", [("id", (TInt, false))])]%string; u_governors := ["instrument"]%string;
+                             u_types := []; u_refs := []; u_compsc := [] |}.
+Example wf_dt_component : wf_dt ex_u {| t_name := "flat.wcs"; t_grp := ex_g; t_sc := "Wcs"; t_psc := Some "Exposure"%string; t_calib := true |}.
+Proof. repeat split; try reflexivity; simpl; intros; discriminate. Qed.
+
+(* ===== equal objects hash equally (so a round trip that returns an equal object returns an equally hashing one) ===== *)
+Theorem hash_preserved_group : forall u a b, in_universe u a -> in_universe u b -> grp_eq a b = true -> grp_hash_key a = grp_hash_key b.
+Proof. exact hash_preserved_grp_p. Qed.
+Print Assumptions hash_preserved_group.
+
+Theorem hash_preserved_coord : forall u a b, in_universe u (c_grp a) -> in_universe u (c_grp b) ->
+  coord_eq a b = true -> coord_hash_key a = coord_hash_key b.
+Proof. exact hash_preserved_coord_p. Qed.
+Print Assumptions hash_preserved_coord.
+
+Theorem hash_preserved_dt : forall u a b, in_universe u (t_grp a) -> in_universe u (t_grp b) ->
+  dt_eq a b = true -> dt_hash_key a = dt_hash_key b.
+Proof. exact hash_preserved_dt_p. Qed.
+Print Assumptions hash_preserved_dt.
+
+Theorem hash_preserved_ref : forall u a b,
+  in_universe u (t_grp (f_type a)) -> in_universe u (t_grp (f_type b)) ->
+  in_universe u (c_grp (f_coord a)) -> in_universe u (c_grp (f_coord b)) ->
+  ref_eq a b = true -> ref_hash_key a = ref_hash_key b.
+Proof. exact hash_preserved_ref_p. Qed.
+Print Assumptions hash_preserved_ref.
+
+(* ===== DataCoordinate: the faithful model loses None records in the full form (finding) ===== *)
+Theorem coord_null_record_refuted : exists u c c',
+  dec_coord u (enc_coord false c) = Some c' /\ record_state c "x" = 1%N /\ record_state c' "x" = 2%N.
+Proof. exact coord_null_record_refuted_p. Qed.
+Print Assumptions coord_null_record_refuted.
+
+(* ===== Config keys ===== *)
+Theorem split_join : forall d ks, ks <> [] -> Forall (fun k => memc d k = false) ks -> split d (join d ks) = ks.
+Proof. exact split_join_p. Qed.
+Print Assumptions split_join.
+
+Theorem name_split : forall alnum d ks, alnum d = false -> d <> BS -> ks <> [] ->
+  Forall (fun k => memc d k = false) ks -> nonlast_ok ks = true ->
+  split_key alnum (mkname d (map KS ks)) = Ok (map KS ks).
+Proof. exact name_split_p. Qed.
+Print Assumptions name_split.
+
+Theorem default_delimiter_fresh : forall alnum top d l t x k, names_default alnum top = Some (d, l) ->
+  In (t, x) (tuples (CDict top)) -> In k t -> memc d (key_str k) = false /\ d <> BS.
+Proof. exact default_delim_fresh. Qed.
+Print Assumptions default_delimiter_fresh.
+
+(* every reported name of an all-string key path, none of whose non-final keys ends in a backslash, is reported,
+   retrieves the value the path leads to, and is `in` the Config -- for EVERY character classification.
+   PARTIAL: list indices / non-string keys are excluded (map KS), and that the path leads to x (walk) is a premise. *)
+Theorem names_retrieve_partial : forall alnum top d l ks x,
+  names_default alnum top = Some (d, l) -> alnum d = false ->
+  In (map KS ks, x) (tuples (CDict top)) -> nonlast_ok ks = true ->
+  walk (map KS ks) (CDict top) = Ok (Some x) ->
+  In (mkname d (map KS ks), x) l /\
+  lookup alnum top (mkname d (map KS ks)) = Ok x /\ contains alnum top (mkname d (map KS ks)) = Ok true.
+Proof. exact names_retrieve_partial_p. Qed.
+Print Assumptions names_retrieve_partial.
+
+Example names_retrieve_nonvacuous :
+  let top := [(KS [97], CDict [(KS [98; 46; 99], CInt 1%Z)])] in
+  names_default ascii_alnum top = Some (8594%N, names_with 8594%N top)
+  /\ In (map KS [[97]; [98; 46; 99]]%N, CInt 1%Z) (tuples (CDict top))
+  /\ walk (map KS [[97]; [98; 46; 99]]%N) (CDict top) = Ok (Some (CInt 1%Z)).
+Proof. vm_compute. repeat split; auto. Qed.
+
+(* the property itself fails on the faithful model: a key ending in a backslash; a non-string key; an explicit delimiter *)
+Theorem names_retrieve_refuted : refutes w_backslash.
+Proof. exact names_retrieve_refuted_backslash_p. Qed.
+Print Assumptions names_retrieve_refuted.
+
+Theorem names_retrieve_refuted_nonstring_key : refutes w_intkey.
+Proof. exact names_retrieve_refuted_intkey_p. Qed.
+Print Assumptions names_retrieve_refuted_nonstring_key.
+
+Theorem names_explicit_delimiter_refuted :
+  exists top l n x, names_explicit ascii_alnum 46%N top = Some l /\ In (n, x) l /\ lookup ascii_alnum top n = Err ValueErr.
+Proof. exact names_explicit_refuted_p. Qed.
+Print Assumptions names_explicit_delimiter_refuted.
